@@ -440,9 +440,93 @@ def run_overruled_groups(w) -> None:
             loaded.unload()
 
 
+REBOUND_SOURCE = '''
+import icontract
+
+
+class Grand(icontract.DBC):
+    @icontract.require(lambda x: x > 0)
+    @icontract.ensure(lambda result: result < 1000)
+    def f(self, x):
+        return x
+
+    @icontract.require(lambda x: x > 0)
+    def g(self, x):
+        return x
+
+
+class Parent(Grand):
+    @icontract.require(lambda x: x < -10)
+    @icontract.ensure(lambda result: result % 2 == 0)
+    def f(self, x):
+        return x
+
+    @icontract.require(lambda x: x < -10)
+    def g(self, x):
+        return x
+
+
+def verdicts():
+    out = []
+    for cls in (Grand, Parent):
+        for member in ("f", "g"):
+            for x in (5, 6, -20, -5, 2000):
+                try:
+                    getattr(cls(), member)(x)
+                    out.append((cls.__name__, member, x, "returned"))
+                except icontract.ViolationError:
+                    out.append((cls.__name__, member, x, "violation"))
+            checker = icontract._checkers.find_checker(getattr(cls, member))
+            out.append((cls.__name__, member, "groups", [len(group) for group in checker.__preconditions__], len(checker.__postconditions__)))
+    return out
+
+
+BEFORE = verdicts()
+
+
+class Child(Parent):
+    # the sub-class takes the functions of the grand-parent over as they are (the parent overrides them)
+    f = Grand.f
+    g = Grand.g
+
+
+AFTER = verdicts()
+CHILD = []
+for x in (5, -20):
+    try:
+        Child().f(x)
+        CHILD.append((x, "returned"))
+    except icontract.ViolationError:
+        CHILD.append((x, "violation"))
+'''
+
+
+def run_rebound_ancestor_member(w) -> None:
+    """A sub-class which re-binds the function of a grand-parent (overridden by its parent) under the same name: the members which
+    the grand-parent and the parent provide keep their contracts as they are."""
+    loaded = prog.load_source(REBOUND_SOURCE, w.scratch())
+    mod = loaded.module
+    try:
+        w.count("calls", len(mod.BEFORE))
+        w.count("rebound_member_observations", len(mod.BEFORE))
+        w.case(("rebound-ancestor-member",))
+        for before, after in zip(mod.BEFORE, mod.AFTER):
+            if before != after:
+                w.violation("C04/inherited-member-changed-by-a-sub-class-which-rebinds-it", "defining Child(Parent) with f = Grand.f changed {} into {}".format(
+                    before, after), {"rebound": True})
+        # the function is Grand's own: its contracts as they are
+        if mod.CHILD != [(5, "returned"), (-20, "violation")]:
+            w.violation("C04/inherited-member-changed-by-a-sub-class-which-rebinds-it", "Child().f, which is Grand.f taken over as it is, gives {}".format(
+                mod.CHILD), {"rebound": True})
+    finally:
+        loaded.unload()
+
+
 def run(w) -> None:
     if w.shard == 1 % w.nshards:
         run_overruled_groups(w)
+    if w.shard == 2 % w.nshards:
+        run_rebound_ancestor_member(w)
     for meta, spec in specs(w):
         w.count("hierarchies")
         run_spec(w, spec, meta)
@@ -452,6 +536,9 @@ def run(w) -> None:
 def replay(case, w) -> None:
     if "overruled" in case:
         run_overruled_groups(w)
+        return
+    if "rebound" in case:
+        run_rebound_ancestor_member(w)
         return
     spec = case["prog"]
     model = Model(spec)
